@@ -13,7 +13,7 @@ K_FLAG = "oneshot_flag_sticks_after_restart"
 K_RESET = "resethand_window_disposition_default"
 K_STALE = "stale_signal_after_same_signum_restart"
 K_ONE0 = "oneshot_stopped_without_callback"
-FIXED = os.environ.get("VERIF_C13_FIXED", "") == "1"   # compare against the model variant with the flag fix
+FIXED = os.environ.get("VERIF_C13_FIXED", "1") == "1"   # compare against the model variant with the flag fix
 
 
 # --------------------------------------------------------------------------
@@ -274,6 +274,14 @@ class Mon:
         quiet = r["cbs"] == 0 and not r["closed"]
         twice = quiet and self.quiet.get(l, False)     # second run in a row with nothing to do: the pipe is empty
         self.quiet[l] = quiet
+        # messages that were in the pipe when the run began and made no callback: dropped legitimately when
+        # they belong to an earlier start of the handle; otherwise they stay outstanding (libuv may deliver
+        # them in a later iteration) and count as missed only once the pipe is known to be empty
+        for h, n0 in r["n0"].items():
+            k = max(0, min(n0 - r["popped"].get(h, 0), len(self.q[h])))
+            head = [self.q[h].popleft() for _ in range(k)]
+            for ses, s in reversed([m for m in head if m[0] == self.sess[h] and self.sig[h] == m[1]]):
+                self.q[h].appendleft((ses, s))
         if not twice:
             return
         for h in r["n0"]:
@@ -281,7 +289,7 @@ class Mon:
                 ses, s = self.q[h].popleft()
                 if ses == self.sess[h] and self.sig[h] == s and not self.overflow:
                     self.bad(None, "started handle %d missed a delivered signal %d" % (h, s))
-            if self.closing[h] and not self.closed[h]:
+            if self.closing[h] and not self.closed[h] and r["n0"][h] == 0:
                 self.bad(None, "close_cb of handle %d was not called although nothing is left to dispatch" % h)
 
     # ---- walking the token stream ------------------------------------------------
